@@ -1,8 +1,8 @@
 package lint
 
 import (
-	"go/constant"
 	"fmt"
+	"go/constant"
 	"go/types"
 	"sort"
 	"strings"
